@@ -20,6 +20,8 @@ let model op args =
              | Some (rest, v) -> "ok " ^ hex_of_bytes rest ^ " " ^ hex_of_bytes v
              | None -> "err")
   | "ebp" -> hex_of_bytes (bytes_of_hex (a0 ()) @ encode_bytes (bytes_of_hex (List.nth args 1)))
+  | "icu" -> hex_of_n (int_to_cmp (z_of_hex (a0 ())))
+  | "cui" -> hex_of_z (cmp_to_int (n_of_hex (a0 ())))
   | "eu" -> hex_of_bytes (encode_uint (n_of_hex (a0 ())))
   | "eud" -> hex_of_bytes (encode_uint_desc (n_of_hex (a0 ())))
   | "ei" -> hex_of_bytes (encode_int (z_of_hex (a0 ())))
